@@ -2974,6 +2974,7 @@ pub trait VerylWalker {
         before!(self, mixin_declaration, arg);
         self.mixin(&arg.mixin);
         self.scoped_identifier(&arg.scoped_identifier);
+        self.semicolon(&arg.semicolon);
         after!(self, mixin_declaration, arg);
     }
 
